@@ -229,7 +229,7 @@ def main():
             fam += [("enum_dedup", p) for p in en]
             cov["enumerated_family"] = "root yields [D, actor..]; every actor sequence over {wait, call, dirty+call}: %d programs, all schedules" % len(en)
         progs = [p for _, p in fam]
-        mc = pipeline.model_check(progs, sc, cfg="SchedExport.cfg", chunk=4000, timeout=3000, coverage=False)
+        mc = pipeline.model_check(progs, sc, cfg="SchedExport.cfg", chunk=4000, timeout=3000, coverage=False, clauses=conf["prefixes"][0])
         cov["states"] = mc["states"]
         cov["transitions"] = mc["generated"]
         cov["model_programs"] = len(progs)
